@@ -458,3 +458,9 @@ pub fn split_at_cuts(stream: &[u8], cuts: &[usize]) -> Vec<Vec<u8>> {
     out.push(stream[prev..].to_vec());
     out
 }
+
+/// cuts with a random strategy
+pub fn cuts_r(rng: &mut Rng, stream: &[u8]) -> Vec<usize> {
+    let k = rng.below(8);
+    cuts(rng, stream, k)
+}
